@@ -177,13 +177,14 @@ type hashCall struct {
 }
 
 type RunConfig struct {
-	MaxSteps     int
-	LoopBound    int
-	SolverMs     int
-	OneShotMs    int // cap of the fresh-process retry of an obligation the incremental solver left unknown (0 = off)
-	BranchMs     int
-	Trace        bool
-	CheckWitness bool
+	MaxSteps        int
+	LoopBound       int
+	SolverMs        int
+	BranchOneShotMs int // same retry for undecided branch-feasibility queries (0 = off)
+	OneShotMs       int // cap of the fresh-process retry of an obligation the incremental solver left unknown (0 = off)
+	BranchMs        int
+	Trace           bool
+	CheckWitness    bool
 }
 
 func (m *Machine) unsupported(msg string) {
@@ -283,6 +284,11 @@ func (m *Machine) checkBranch(extra ...*Term) SatResult {
 	r := m.solver.Check(m.ts, extra...)
 	if r == Sat {
 		m.solver.Done()
+	}
+	if r == Unknown && m.cfg.BranchOneShotMs > 0 {
+		// an undecided branch would be explored as if feasible; a fresh non-incremental
+		// process often decides it (floating point) and saves the bogus paths
+		r, _ = m.solver.OneShot(m.ts, m.cfg.BranchOneShotMs, nil, extra...)
 	}
 	return r
 }
